@@ -169,6 +169,7 @@ class SLock:
     def __init__(self, eng, real=None):
         self.eng = eng
         self.real = real if real is not None else threading.Lock()
+        self.owner = None           # thread that acquired it last and has not released it
 
     def __enter__(self):            # `with self.lock:` -- the exit goes to THIS object even if storage.lock is re-bound
         self.acquire()
@@ -183,6 +184,7 @@ class SLock:
         w = eng.current()
         while True:
             if self.real.acquire(False):
+                self.owner = w.tid
                 eng.log.append((w.tid, 'A', None))
                 return True
             if not blocking or (timeout is not None and timeout >= 0):
@@ -207,6 +209,7 @@ class SLock:
             eng.log.append((w.tid, 'X', None))
             eng.lock_errors.append('release of an unlocked lock in thread %d' % w.tid)
             raise
+        self.owner = None
         eng.log.append((w.tid, 'R', None))
 
     def locked(self):
@@ -261,6 +264,8 @@ class Worker:
                     res['out'] = 'deadlock'
                 finally:
                     sys.settrace(None)
+                # after ANY call (also one that raised) the calling thread must not hold the store lock
+                res['held_after'] = any(l.owner == self.tid and l.real.locked() for l in eng.locks)
                 if eng.snap:
                     res['before'], res['after'] = before, snapshot(eng.flavour, eng.store)
                 self.results.append(res)
@@ -505,7 +510,7 @@ def mirror(s_ir, path):
         return path[i] if i < len(path) else False
 
     def fp(f):
-        return f in ('FWeak', 'FDecl')
+        return f in ('FWeak', 'FDecl', 'FMay')
 
     def block(stmts):
         for s in stmts:
@@ -649,6 +654,7 @@ def build_obs(flavour, thread_ops, raw):
             ent = {'op': op, 'events': evs, 'out': res['out'], 'ret': res['ret'], 'path': p}
             if 'rm' in res:
                 ent['rm'] = res['rm']
+            ent['held_after'] = bool(res.get('held_after'))
             if 'before' in res:
                 ent['before'], ent['after'] = res['before'], res['after']
             if 'msg' in res:
@@ -701,6 +707,12 @@ def oracle_common(flavour, thread_ops, obs, check_serial):
                     'another call was queued on / using the old one (it later releases the new, never acquired lock)'
                     % (e, obs['rebound'][0][0], obs['rebound'][0][1]))
         return 'lock error: ' + e
+    for tid, row in enumerate(obs['calls']):
+        for c in row:
+            if c.get('held_after'):
+                return ('%s store: call %s(%s) %s and left the store lock HELD (checked right after the call); every later '
+                        'caller blocks for ever' % (flavour, c['op']['m'], c['op'].get('g'),
+                                                    'returned' if c['out'] == 'ok' else 'raised ' + c['out'][4:]))
     if obs['deadlock']:
         return 'a caller blocked forever on the store lock (lock left held)'
     for tid, row in enumerate(obs['calls']):
@@ -951,6 +963,19 @@ class Seq(Stream):
         out = []
         for i in range(n):
             ops = [rand_op(rng) for _ in range(rng.randrange(3, 13))]
+            if i % 5 == 4:
+                # lookups of deleted and of never-imported ids followed by a (second) delete, spliced into the history
+                g = rng.choice(GIDS)
+                look = lambda: {'m': rng.choice(['get_graph', 'extract_graph']), 'g': g}
+                pat = rng.choice([
+                    [look(), {'m': 'del_graph', 'g': g}],
+                    [{'m': 'add_graph', 'g': g, 'k': rng.choice([1, 2]), 'bad': None}, {'m': 'del_graph', 'g': g}, look(),
+                     {'m': 'del_graph', 'g': g}],
+                    [{'m': 'del_graph', 'g': g}, look(), {'m': 'del_graph', 'g': g}, {'m': 'add_blank_node_to_graph', 'g': g}],
+                    [{'m': 'del_all_graphs', 'g': g}, look(), {'m': 'del_graph', 'g': g}, {'m': 'add_graph', 'g': g, 'k': 1, 'bad': None}],
+                ])
+                at = rng.randrange(len(ops) + 1)
+                ops = ops[:at] + pat + ops[at:]
             out.append({'flavour': FLAVOURS[i % 2], 'ops': ops})
         return out
 
@@ -994,7 +1019,7 @@ class Seq(Stream):
                 seen.add(o['g'])
         rm_then_alloc = False
         for i, o in enumerate(ops):
-            if o['m'] in EXT_OPS and obs['calls'][0][i].get('rm') and any(
+            if o['m'] in EXT_OPS and i < len(obs['calls'][0]) and obs['calls'][0][i].get('rm') and any(
                     o2['m'] == 'add_blank_node_to_graph' and o2['g'] == o['g'] for o2 in ops[i + 1:]):
                 rm_then_alloc = True
         if failing or re_import or rm_then_alloc:
@@ -1076,6 +1101,10 @@ SCENARIOS = [
     ('remove-vs-blank', [{'m': 'add_graph', 'g': 'g1', 'k': 3, 'bad': None}],
      [[{'m': 'remove_node', 'g': 'g1', 'idx': 0}, {'m': 'add_blank_node_to_graph', 'g': 'g1'}],
       [{'m': 'add_blank_node_to_graph', 'g': 'g1'}, {'m': 'delete_node', 'g': 'g1', 'idx': 1}]]),
+    # lookups of deleted / never-imported ids followed by a second delete
+    ('lookup-deleted-vs-delete', [{'m': 'add_graph', 'g': 'g1', 'k': 1, 'bad': None}],
+     [[{'m': 'del_graph', 'g': 'g1'}, {'m': 'get_graph', 'g': 'g1'}, {'m': 'del_graph', 'g': 'g1'}],
+      [{'m': 'extract_graph', 'g': 'g2'}, {'m': 'del_graph', 'g': 'g2'}, {'m': 'add_blank_node_to_graph', 'g': 'g1'}]]),
     # T1 inside del_all_graphs while T2 is queued on acquire (and the other way round)
     ('delete-all-vs-queued', [{'m': 'add_graph', 'g': 'g1', 'k': 1, 'bad': None}],
      [[{'m': 'del_all_graphs', 'g': 'g1'}, {'m': 'add_blank_node_to_graph', 'g': 'g1'}],
@@ -1331,6 +1360,90 @@ class Attack(Stream):
         return 'attack %s %s %s locked=%s' % (case['flavour'], case['m'], case['kind'], obs['locked'])
 
 
+def _guard_stream(cls, bad_term):
+    """no exception of the implementation, of an observation or of this harness may escape as a traceback: a failing
+    step becomes an observation {'harness_error': ..} whose Coq term disagrees by construction, so the run ends with
+    a VIOLATION line naming the broken correspondence (no-failing-input-found at worst)"""
+    def wrap(name, fallback):
+        orig = getattr(cls, name)
+
+        def f(self, *a, **kw):
+            try:
+                obs = next((x for x in a if isinstance(x, dict) and 'harness_error' in x), None)
+                if obs is not None and name != 'observe':
+                    return fallback(self, obs)
+                return orig(self, *a, **kw)
+            except Exception as e:      # noqa
+                import traceback as tb
+                msg = '%s.%s: %r | %s' % (cls.__name__, name, e, ' <- '.join(l.strip() for l in tb.format_exc().splitlines()[-6:-1]))[:900]
+                log('C20 harness: guarded failure in ' + msg)
+                ERRORS.append(msg)
+                return fallback(self, {'harness_error': msg})
+        setattr(cls, name, f)
+    wrap('observe', lambda self, o: o)
+    wrap('to_coq', lambda self, o: bad_term)
+    wrap('oracle', lambda self, o: None)
+    wrap('key', lambda self, o: None)
+    wrap('describe', lambda self, o: {'case': 'n/a', 'impl': o})
+    wrap('known_signature', lambda self, o: 'harness_error')
+    orig_h = cls.histogram
+
+    def hist(self, cases, obs):
+        keep = [(c, o) for c, o in zip(cases, obs) if not (isinstance(o, dict) and 'harness_error' in o)]
+        try:
+            h = orig_h(self, [c for c, _ in keep], [o for _, o in keep])
+        except Exception as e:          # noqa
+            h = {'histogram_error': repr(e)}
+        h['harness_errors'] = len(obs) - len(keep)
+        return h
+    cls.histogram = hist
+    orig_s = cls.shrink
+
+    def shr(self, case, failing):
+        try:
+            return orig_s(self, case, failing)
+        except Exception:               # noqa
+            return case
+    cls.shrink = shr
+    for nm in ('gen', 'corpus'):
+        def mk(nm):
+            orig_g = getattr(cls, nm)
+
+            def g(self, *a, **kw):
+                try:
+                    return orig_g(self, *a, **kw)
+                except Exception as e:  # noqa
+                    import traceback as tb
+                    msg = '%s.%s: %r | %s' % (cls.__name__, nm, e, ' <- '.join(l.strip() for l in tb.format_exc().splitlines()[-6:-1]))[:900]
+                    log('C20 harness: guarded failure in ' + msg)
+                    ERRORS.append(msg)
+                    return [{'harness_error_case': msg, 'flavour': 'shared', 'ops': [], 'setup': [], 'threads': [], 'm': 'get_graph', 'kind': 'none'}]
+            setattr(cls, nm, g)
+        mk(nm)
+
+
+ERRORS = []
+BAD_CCASE = '(false, [], [0]%N, ([(0%N,4242%N)], [], []))'      # the model cannot agree with this observation
+BAD_ATTACK = '(false, ""%string, 0%N, true)'
+
+
+def safe_main(check):
+    """a crash of the harness itself is reported as a violation of the correspondence, never as a bare traceback"""
+    try:
+        return main(check)
+    except SystemExit:
+        raise
+    except BaseException as e:          # noqa
+        import traceback as tb
+        txt = tb.format_exc()
+        log(txt)
+        path = write_replay(check.pid, 'violation', {
+            'property': check.pid, 'no_longer_checks': 'harness crashed: the correspondence %s could not be evaluated' % check.pid,
+            'harness_error': repr(e), 'traceback': txt[-3000:], 'guarded_errors': ERRORS[:5]})
+        print('VIOLATION property=%s replay=%s no-failing-input-found' % (check.pid, path))
+        return 1
+
+
 def load_corpus(stream):
     d = os.path.join(VERIF, 'corpus', 'C20')
     out = []
@@ -1408,5 +1521,9 @@ class C20(Check):
         return out
 
 
+_guard_stream(Seq, BAD_CCASE)
+_guard_stream(Sched, BAD_CCASE)
+_guard_stream(Attack, BAD_ATTACK)
+
 if __name__ == '__main__':
-    sys.exit(main(C20()))
+    sys.exit(safe_main(C20()))
